@@ -1,6 +1,24 @@
+import hashlib as _hl19, os as _os19
+
+_verif19 = _os19.path.dirname(_os19.path.dirname(_os19.path.dirname(_os19.path.abspath(__file__))))
+_repo19 = _os19.environ.get("GV_REPO", "/repo")
+
+
+def _tools_digest19():
+    # the harness compiles $GV_REPO/tools/Gravity.cpp and MagneticField.cpp into itself: make the harness cache key depend on their text
+    h = _hl19.sha256()
+    for f in ("Gravity.cpp", "MagneticField.cpp"):
+        try:
+            h.update(open(_os19.path.join(_repo19, "tools", f), "rb").read())
+        except OSError:
+            h.update(b"missing")
+    return h.hexdigest()[:16]
+
+
 PROPS["C19"] = dict(
-    harnesses=[dict(name="C19", procs_quick=2, procs_thorough=16)],
-    gens=[],
+    harnesses=[dict(name="C19", procs_quick=2, procs_thorough=16,
+                    extra=["-I" + _os19.path.join(_verif19, "harness", "C19_tools"), "-DGV_TOOLS_DIGEST=0x" + _tools_digest19()])],
+    gens=["gen_c19glue"],
     rule=("coefficient storage: every (N, nmx, mmx, stored order) with N <= 5 (8 thorough) incl. invalid dimensions, every (n, m) of each, plus random "
           "layouts to degree 60; harmonic sums: L = 1, 2, 3 coefficient sets, FULL and SCHMIDT, first set truncated below its layout, secondary sets "
           "stored with a larger layout degree than used (nmx_l < N_l), empty secondary sets, multipliers tau in {1, -1, 0.5, 2, 0, random}; coefficient "
@@ -11,7 +29,20 @@ PROPS["C19"] = dict(
           "model files (ModelMass = or != ReferenceMass, several flattenings, height offset, correction multiplier, with/without geoid-correction block, "
           "truncated loading, h = 0 and h != 0, poles), every member of GravityCircle/MagneticCircle against the model; NormalGravity for WGS84, GRS80, "
           "sphere, prolate, random (a, GM, omega, f) to f = 0.6, omega = 0, |f| down to 1e-7; malformed coefficient-file headers (huge / negative / "
-          "inconsistent degree). non-trivial = finite value compared with an oracle; distinct = distinct (op, leading argument bits)"),
+          "inconsistent degree). GLUE (second deepening round): synthetic .egm / .wmm files with varied metadata (name differing from the file name, descriptions with blanks "
+          "and '=', unknown keys, comments, flattening as decimal / fraction / DynamicalFormFactor, 4 reference ellipsoids) read back through every accessor; GravityModel::Phi, U, "
+          "W = V + Phi, T = W - U at random points; Circle(lat, h, caps) for all 64 unions of the six documented masks at h = 0 and h != 0 (every member either NaN or equal to "
+          "the all-capabilities circle, Capabilities(), Capabilities(test)) and all 64 raw masks x {h = 0, h != 0} against the Lean capability model; default-constructed "
+          "GravityCircle, MagneticCircle, CircularEngine, NormalGravity, SphericalHarmonic/1/2; MagneticModel accessors, all operator() / FieldGeocentric / FieldComponents "
+          "overloads of model and circle on 1-4 epoch models with/without constant block on two ellipsoids; FieldComponents on generic, axis-aligned, H = 0, F = 0, 1e-150 "
+          "and 1e150 fields; the normal zonal table of GravityModel for both normalisations, f in {WGS84, GRS80, 0.001, 1/150, 0, -0.002}, truncated loading, a huge model "
+          "coefficient (early exit); every combination (unset / empty / set)^3 of GEOGRAPHICLIB_{GRAVITY,MAGNETIC}_PATH, GEOGRAPHICLIB_DATA, GEOGRAPHICLIB_*_NAME with a model "
+          "in each candidate directory, explicit path, missing model; 7 harmless and 25 malformed variations of each file format; readcoeffs on a two-block stream for every "
+          "(N0, M0) <= 4 (6 thorough) x every request (N, M) <= N0 + 1 incl. (-1, -1), truncate false/true, random to degree 40; the simple constructors with N1, N2 <= / > N, "
+          "vectors longer than needed and one element short; root table: degree <= 60 (120 thorough) model fresh (forked child with cleared table) vs after smaller models / "
+          "RootTable(large) / Clear + rebuild; NormalGravity V0, Phi, U at points outside, on and slightly inside 8 families of ellipsoids; tools/Gravity (-G -D -A -H, -c, -p, "
+          "-N, -M, -w, --comment-delimiter, --input-string) and tools/MagneticField (-t, -c, per-line time as decimal year or date, -r, -p, -N, -T, -H guards, -w) in-process on "
+          "1-6 input lines incl. malformed ones. non-trivial = finite value compared with an oracle; distinct = distinct (op, leading argument bits)"),
     tolerances={"sum, gradient, circle vs defining double sum (long double)": "1e-12 x max(1, (N+1)/32) x sum|terms| (terms of the value, resp. of the three spherical gradient components), plus 8 ulp of the point (|grad V| r eps: r, cos theta, sin theta are rounded), the documented pole offset eps() = 2^-78 times the derivative bound and the underflow floor 2^-450 of the internally scaled sums",
                 "gradient vs central differences of the defining sum": "truncation bound 1e-12 (N+3)^2 relative + 1e-9",
                 "circle vs point": "min(1e-12 x max(1,(N+1)/32), (32 + 2(M+1)^2) x 1.2e-16) x sum|terms|",
@@ -22,6 +53,13 @@ PROPS["C19"] = dict(
                 "FieldGeocentric vs Lean time-interpolation model on the implementation's own per-epoch gradients": "1e-14 relative to the sum of the magnitudes of the combined terms",
                 "gravity W, V, g, T, delta, geoid height, anomaly": "1e-12 x sum|terms| of the respective harmonic sum (+ normal-field zonal terms beyond the model degree for T = W - U)",
                 "GravityCircle / MagneticCircle vs model": "64 x 1.2e-16 x (M + 2) x sum|terms|",
+                "accessors, strings, Capabilities, readcoeffs selection and stream position, lookup path and name, tool output lines vs Utility::str / DMS::Encode of the API values, root-table history": "exact",
+                "circle members under a capability mask vs the all-capabilities circle": "64 ulp of the largest component (same arithmetic on the same sums)",
+                "Phi, W = V + Phi, U = V0 + Phi (value and gradient)": "4 ulp of the sum of the magnitudes of the two terms",
+                "T = W - U, delta = grad W - grad U through the public members": "1e-11 relative to |W| + |U| (resp. the gradients) plus the normal zonal terms beyond the model degree",
+                "FieldComponents vs definition / Lean model": "H, F: 4-8 ulp; D, I: 1e-13 x 180 deg; rates: 8-16 ulp of the sum of the magnitudes of the products that are subtracted",
+                "normal zonal terms vs -J_n (GMref/GMmodel)(aref/amodel)^n [/ sqrt(2n+1)]": "1e-12 relative (long double J_n from H+M 2-92); vs Lean model of the loop: 8 ulp per entry, exit degree equal unless the exit test is within 4 ulp of deciding otherwise",
+                "epoch split stored in MagneticCircle vs Lean epochSplit": "t1: 4 ulp of |t - t0| + n dt0; n (through the kernels), interpolate, constant-term flag: exact",
                 "normal gravity": "U: 64 ulp of GM/r + omega^2 (a^2 + r^2); gradient vs differenced closed form 1e-9; div(gamma) - 2 omega^2: 1e-6 (GM/r^3 + omega^2); surface gravity, J2, J4, J6, conversions: 1e-13 .. 1e-12 relative"},
     level_text=("Theorems (all inputs): the backward Clenshaw recurrence with index-dependent alpha_k, beta_k over any commutative ring returns sum c_k F_k for every "
                 "three-term recurrence F (clenshaw_general, clenshaw_tail, clenshaw_outer: the two-family form used for cos/sin m lambda). VALUE IS THE SERIES, IN FULL: "
@@ -40,29 +78,59 @@ PROPS["C19"] = dict(
                 "CircularEngine::Value equals the point evaluation as the same real number, value and all gradient components, for every longitude (circle_eq_value, "
                 "circle_eq_value_nograd, circle_eq_point, circle_is_series). STORAGE: index(n, m) = mN - m(m-1)/2 + n is injective on the stored triangle, has range [0, Csize) and is "
                 "onto it, Csize is the number of stored pairs (index_injective, index_range, index_contiguous, index_surjective, csize_count); the "
-                "range-checked accessors return the stored coefficient iff n <= nmx and m <= mmx and 0 otherwise (truncation_selects, combC_two). MAGNETIC TIME: "
-                "fields are linear in time within an epoch, continuous across epoch boundaries and extrapolated with the first / "
-                "last epoch (time_interp, time_linear, time_continuous, time_extrapolation, epochIndex_spec). NORMAL GRAVITY: the normal potential is constant on the "
-                "reference ellipsoid for oblate, prolate and spherical bodies (normal_U_const, normal_U_const_prolate, normal_U_const_sphere); FlatteningToJ2 is Heiskanen-Moritz "
+                "range-checked accessors return the stored coefficient iff n <= nmx and m <= mmx and 0 otherwise (truncation_selects, combC_two). MAGNETIC TIME, ONE DEFINITION FOR "
+                "BOTH IMPLEMENTATION COPIES: the epoch selection the driver executes (epochSel: comparisons only) is n = clamp(floor((t - t0)/dt0), 0, N - 1), t1 = t - t0 - n dt0, "
+                "interpolate iff n + 1 < N (epochSel_is_clamped_floor, epochSplit_spec, epochSel_eq_epochIndex); the time-dependent field built on it equals the model of the first "
+                "round (fieldOfTime_eq_fieldAt, so time_interp, time_linear, time_continuous, time_extrapolation, epochIndex_spec apply to it) and MagneticCircle's combination of what "
+                "MagneticModel::Circle stores is the same function (circle_copy_is_model_copy); the field is a CONTINUOUS function of the time on the whole real line for every number of "
+                "epochs (time_continuous_everywhere, dt0 != 0: Continuous.if_le over the epoch boundaries), and is extrapolated linearly before the second and after the last epoch with "
+                "the first difference quotient resp. the secular-variation block as rate (time_extrapolation_before, time_extrapolation_after). FIELD COMPONENTS (model of "
+                "MagneticModel::FieldComponents): H^2 = Bx^2 + By^2, F^2 = H^2 + Bz^2 (comps_H_sq, comps_F_sq); H sin D = Bx, H cos D = By, tan D = Bx/By; F sin I = -Bz, F cos I = H, "
+                "tan I = -Bz/H (comps_D, comps_tan_D, comps_I, comps_tan_I; D, I in degrees, H != 0); the rates are time derivatives along B + s dB/dt: HasDerivAt for H, F, I as "
+                "returned (comps_Ht_is_derivative, comps_Ft_is_derivative, comps_It_is_derivative), for D as returned when By > 0 (comps_Dt_is_derivative_north) and for the branch "
+                "arctan(Bx/By) when By != 0 (comps_Dt_is_derivative_partial: the full statement, for every field not pointing due south, is not proved). GRAVITY MODEL BOOKKEEPING: the "
+                "table _zonal assembled by the constructor holds 1, zeros at odd degrees and -(GMref/GMmodel)(aref/amodel)^n J_n/sqrt(2n+1) (FULL) resp. without the root (SCHMIDT) at the "
+                "even degrees present (zonal_table_entries); over R the loop stops only beyond the model degree or at a vanishing term and the table has odd length (zonal_table_stops_only_at_zero); "
+                "with tau = -1 the combined coefficients of _disturbing are C_nm - delta_m0 Z_n and S_nm (disturbing_coeff) and the harmonic sum is linear in them: T-sum = V-sum - normal "
+                "zonal sum for both normalisations (disturbing_is_V_minus_normal). CAPABILITY MASKS: for all 64 masks and h = 0 / h != 0 a GravityCircle member that passes its own test reads "
+                "only parts that GravityModel::Circle built (caps_enabled_reads_built); each documented mask enables exactly its documented members, GEOID_HEIGHT never for h != 0, ALL everything at h = 0 "
+                "(caps_documented_masks); enabling is monotone (caps_monotone). Gen (re-extracted from GravityModel.hpp, GravityCircle.cpp, GravityModel.cpp, MagneticModel.cpp on every run): the "
+                "capability enums are the documented ones, every member tests the mask of the model, Circle clears CAP_GAMMA0 | CAP_C for h != 0 and builds each part under the modelled bit "
+                "(caps_table_extracted, caps_tests_extracted); the environment variables are consulted in the modelled order with the documented defaults (lookup_env_extracted); the metadata keys "
+                "recognised are the ones the synthetic files exercise (metadata_keys_extracted). LOOKUP ORDER: explicit path, then the kind's variable, then GEOGRAPHICLIB_DATA/<kind>, then the "
+                "compile-time default (lookup_order). NORMAL GRAVITY: the normal potential is constant on the "
+                "reference ellipsoid for oblate, prolate and spherical bodies (normal_U_const, normal_U_const_prolate, normal_U_const_sphere); U = V0 + Phi in ellipsoidal coordinates for the "
+                "three shapes and Phi = omega^2 (X^2 + Y^2)/2 with its gradient as derivative (normalU_eq_V0_add_Phi, _prolate, _sphere, phiRot_gradient); FlatteningToJ2 is Heiskanen-Moritz "
                 "eq. 2-90 (flatteningToJ2_is_HM); a fixed point of the Newton step of J2ToFlattening is a zero of its residual and the flattening returned there satisfies "
-                "FlatteningToJ2(f) = J2 (newton_fixed_point, j2Flattening_spec, j2_fixed_point_inverts, j2_newton_fixed_point_inverts). Correspondence: the Int model of coeff "
+                "FlatteningToJ2(f) = J2, on the oblate branch (newton_fixed_point, j2Flattening_spec, j2_fixed_point_inverts, j2_newton_fixed_point_inverts) and on the prolate branch with "
+                "Q0 = Qf(-e2, true) = QzAlt(sqrt(-e2/(1 - e2))) (j2_fixed_point_inverts_prolate, j2_newton_fixed_point_inverts_prolate, j2Flattening_neg). Correspondence: the Int model of coeff "
                 "(index, sizes, constructor checks, all accessors) exactly; the formula models of Value<false>, Value<true> (value and Cartesian gradient), Circle<false/true> + "
-                "CircularEngine::Value at the implementation's (p, sin lon, cos lon) for L = 1, 2, 3 and both normalisations; the time-interpolation model; the normal-potential "
-                "closed forms (oblate, prolate, sphere), FlatteningToJ2, and the Newton residual at the flattening returned by J2ToFlattening. Oracles on the implementation (long double, "
-                "independent of the library): the defining double sum with "
+                "CircularEngine::Value at the implementation's (p, sin lon, cos lon) for L = 1, 2, 3 and both normalisations; BOTH copies of the epoch logic against epochSplit / fieldCombine "
+                "(FieldGeocentric on the implementation's per-epoch gradients; the _t1, _interpolate, _dt0 stored by Circle and MagneticCircle::FieldGeocentric on the circle's own sums); "
+                "fieldComponents; zonalTable on the implementation's J_n and coefficients; readSelC / readSelS / readDims / blockBytes (what readcoeffs stores and where it leaves the stream); "
+                "gcEffCaps / gcEnabled for all 128 (mask, h) combinations; defaultPath / defaultName for all 54 environment combinations; phiRot and U = V0 + Phi; the normal-potential "
+                "closed forms (oblate, prolate, sphere), FlatteningToJ2 (oblate, prolate), and the Newton residual at the flattening returned by J2ToFlattening (both branches). Oracles on the "
+                "implementation (long double, independent of the library): the defining double sum with "
                 "forward-recurrence normalised Legendre functions and analytic derivatives for value, gradient and circles; gradient = central "
                 "differences of the value; magnetic and gravity models loaded from synthetic files reproduce the field of the file's coefficients (time "
                 "interpolation/extrapolation, constant term, rotation to east-north-up, H F D I and their rates, V, W, g, T = W - U, disturbance, geoid "
-                "height, spherical anomaly), circle objects member by member; NormalGravity: U constant on the ellipsoid, grad U = returned gravity, "
-                "div gamma = 2 omega^2, Somigliana, J2/J4/J6, J2 <-> f. Not proved: the chain rule from (r, theta, lambda) to (x, y, z) (only the orthogonality of the assembly), "
-                "convergence of the Newton iteration of J2ToFlattening (only its fixed points), the prolate branch of J2ToFlattening/FlatteningToJ2, the general (off-ellipsoid) "
-                "identification of NormalGravity::V0's coordinate computation with (u, beta), GravityModel/MagneticModel file handling (oracles only); no floating-point error bound is proved."),
+                "height, spherical anomaly), circle objects member by member with and without capability masks; every accessor echoes the file; tools/Gravity and tools/MagneticField of the "
+                "current tree run in-process: one output line per input line (two with -r), each equal to Utility::str / DMS::Encode of the API values, ERROR lines and exit status for "
+                "malformed lines and guard bands, -c equal to point mode; root-table history independence against a fresh process; NormalGravity: U constant on the ellipsoid, grad U = returned gravity, "
+                "div gamma = 2 omega^2, Somigliana, gravity flattening, J2/J4/J6, J2 <-> f. Not proved: the chain rule from (r, theta, lambda) to (x, y, z) (only the orthogonality of the assembly), "
+                "convergence of the Newton iteration of J2ToFlattening (only its fixed points), the general (off-ellipsoid) "
+                "identification of NormalGravity::V0's coordinate computation with (u, beta), the declination rate across By = 0, that readSelC/readSelS enumerate the sub-triangle in storage order "
+                "(exact correspondence + harness oracle only), the text layer of the metadata parser (Utility::ParseLine) and the tools' option parsing (oracles only); no floating-point error bound is proved."),
     level_note=("hand-written models (Model/Harmonic.lean) of SphericalEngine::coeff, Value<false/true, norm, L>, Circle<gradp, norm, L>, CircularEngine::Value, "
-                "MagneticModel::FieldGeocentric's time handling, NormalGravity's closed forms (oblate, prolate, sphere) and the Newton residual of J2ToFlattening; nothing is regenerated from the source (no tables in this property): the tie to the current source is the "
-                "correspondence run; synthetic but format-valid .wmm/.wmm.cof and .egm/.egm.cof files written under _cache/tmp; oracle in x87 long double"),
+                "MagneticModel::FieldGeocentric's time handling, NormalGravity's closed forms (oblate, prolate, sphere) and the Newton residual of J2ToFlattening; Model/HarmonicGlue.lean: epoch selection, FieldComponents, normal zonal table, readcoeffs selection, capability bookkeeping, lookup order, prolate J2; "
+                "Gen/C19Glue.lean (capability enums, per-member mask tests, Circle's conditions, environment variables in lookup order, default names, metadata keys) is regenerated from the source on every run; the rest of the tie to the current source is the "
+                "correspondence run; tools/Gravity.cpp and tools/MagneticField.cpp of the current tree are compiled into the harness; synthetic but format-valid .wmm/.wmm.cof and .egm/.egm.cof files written under _cache/tmp; oracle in x87 long double"),
     technique="Lean 4 proofs (ring-generic Clenshaw, Int arithmetic for the packed storage, real closed forms) + binary64/Int execution of the same definitions against the implementation + long-double defining-sum oracle",
     assumptions=["the tolerance 1e-12 x sum|terms| (degree <= 32, linear growth beyond) is the accuracy class assumed in DESIGN.md; the library documents no figure for the harmonic sums",
                  "values whose scaled intermediate sums underflow (|V| < 2^-450) and points within eps() = 2^-78 of the axis are compared with the absolute floors stated in the tolerances",
                  "normal-field zonal harmonics beyond the degree of a (small synthetic) gravity model are not part of T as coded; the comparison with the closed-form W - U allows for them",
-                 "open findings F-C19d (int(floor(t/dt0)) undefined for huge / infinite / NaN time), F-C19a (potential returned by GravityModel::Disturbance / T(X,Y,Z,delta) lacks the degree-0 term), F-C19b (Schmidt-normalised gravity models: normal zonal terms divided by sqrt(2n+1)), F-C19c (Jn(n >= 4) is NaN for f = 0) are reported as KNOWN-FINDING for exactly those input classes"],
+                 "where H = 0 the declination and where F = 0 the inclination is not defined: the values returned there are compared with the Lean model of the code only",
+                 "GravityModel includes the normal zonal terms only up to the first one that is negligible in binary64 against the model's own coefficient (documented heuristic); nothing is required beyond it",
+                 "the compile-time data directory is the one of the Config.h generated by `check` (/usr/local/share/GeographicLib)",
+                 "findings F34-F37 (degree-0 term of T, Schmidt normal zonals, Jn for f = 0, int cast of the epoch number) and F92 (readcoeffs(truncate) with the documented request N = M = -1 left the stream N0 + 1 doubles beyond the block; repaired e86bab9) are repaired in /repo; the request (-1, -1) is part of the exhaustive readcoeffs stratum, so a regression alarms"],
 )
